@@ -74,6 +74,7 @@ class Registry:
     self.classes = {}
     self.spec_fns = {}        # name -> python callable(interp, args, kwargs) -> V
     self.lemmas = []
+    self.value_classes = {}   # frozen dataclass name -> field names: compared / hashed by value
     self.opaque_methods = {}
     self.opaque_iter = None
     self.isinstance_hook = None
